@@ -369,10 +369,8 @@ def gen_meta(r, k, T):
         for t in range(T):
             if r.random() < p_out:
                 pos[t] = [z - 6.0 for z in pos[t]]
-    expanding = "expandBoundaries" in tags
-    st = (["pending-hills"] if pending else []) + (["expandBoundaries"] if expanding else [])
-    return {"fam": "meta", "tags": tags, "sigtags": st,
-            "collapse": "obs" if (pending or expanding) else None, "natoms": nv, "setup": ["temperature 300.0"], "config": cfg + B,
+    return {"fam": "meta", "tags": tags, "sigtags": ["pending-hills"] if pending else [],
+            "collapse": "obs" if pending else None, "natoms": nv, "setup": ["temperature 300.0"], "config": cfg + B,
             "it0": r.choice([0, 0, 5]), "pos": pos, "model": M}
 
 
